@@ -762,6 +762,7 @@ def cases_var(run, rng, n):
 def stream_var(run, cases, outs):
     IN.reset()
     coq, kept = [], []
+    reported = set()
     for c, (st, o) in zip(cases, outs):
         if st != 'ok':
             fail(run, 'resolve_var harness call failed: %s' % (o,), {'stream': 'var', 'case': c, 'outcome': o},
@@ -769,7 +770,11 @@ def stream_var(run, cases, outs):
             continue
         if o['code'] != 0:
             sig = {1: 'var:plain-function', 2: 'var:cycle'}.get(o['code'], 'crash:%s' % o['site'])
-            fail(run, 'resolve_var raised %s for %s with %s' % (o['site'], c['value'], c['env']),
+            if sig in reported:
+                pass
+            else:
+                reported.add(sig)
+                fail(run, 'resolve_var raised %s for %s with %s' % (o['site'], c['value'], c['env']),
                      {'stream': 'var', 'env': c['env'], 'value': c['value'], 'site': o['site']}, signature=sig)
         env = '[%s]' % '; '.join('(%s, %s)' % (slit(k), toks_coq(v)) for k, v in o['env'])
         coq.append('(%s, %s, (%s, %s))' % (env, toks_coq(o['tokens']), nlit(o['code']), toks_coq(o['out'])))
@@ -899,8 +904,7 @@ def sh_case(rng, P):
     if fam == 'flex':
         g, sh_ = P.pick(rng, 'flex-grow', True), P.pick(rng, 'flex-shrink', True)
         g, sh_ = g.lstrip('-') or '1', sh_.lstrip('-') or '1'
-        # a unitless zero written 0.0 / 0e0 is taken for a flex-basis (reported): the stream writes 0
-        g, sh_ = ['0' if float(x) == 0 else x for x in (g, sh_)]
+        g0, s0 = ['0' if float(x) == 0 else x for x in (g, sh_)]
         b = rng.choice([x for x in P.get('flex-basis', True) if not re.match(r'^[-+.\d]+$', x)] or ['auto'])
         form = rng.choice(['none', 'g', 'gs', 'b', 'gb', 'bg', 'gsb', 'bgs', 'auto', 'g0', 'zero'])
         text, longs = {
@@ -909,7 +913,14 @@ def sh_case(rng, P):
             'gsb': ('%s %s %s' % (g, sh_, b), (g, sh_, b)), 'bgs': ('%s %s %s' % (b, g, sh_), (g, sh_, b)),
             'auto': ('auto', ('1', '1', 'auto')), 'g0': ('%s 0' % g, (g, '0', '0px')), 'zero': ('0', ('0', '1', '0px')),
         }[form]
-        return fam, 'flex', 'flex:' + text, list(zip(['flex-grow', 'flex-shrink', 'flex-basis'], longs)), 'flexitem'
+        # F132: a unitless zero not written `0` is taken for the basis - control: the same shorthand with `0`
+        ctl = None
+        if (g0, s0) != (g, sh_):
+            ctl = 'flex:' + {'g': g0, 'gs': '%s %s' % (g0, s0), 'gb': '%s %s' % (g0, b), 'bg': '%s %s' % (b, g0),
+                             'gsb': '%s %s %s' % (g0, s0, b), 'bgs': '%s %s %s' % (b, g0, s0), 'g0': '%s 0' % g0
+                             }.get(form, text)
+        return (fam, 'flex', 'flex:' + text, list(zip(['flex-grow', 'flex-shrink', 'flex-basis'], longs)), 'flexitem',
+                ('flex:unitless-zero-spelling', ctl) if ctl else None)
     if fam == 'columns':
         w = rng.choice([x for x in P.get('column-width', True) if x.lower() != 'auto'])
         c = rng.choice([x for x in P.get('column-count', True) if x.lower() != 'auto'])
@@ -1041,14 +1052,19 @@ def gen_pair(rng, P, gr, bad_pool):
         a, b = place(rng, da, db, ctx, 'border-style:solid;', where=rng.choice(['rule', 'attr']))
         return dict(kind='compute', sig='meta:compute:%s' % prop, a=a, b=b, note='%s == %s' % (da, db))
     if kind == 'sh':
-        fam, name, text, longs, ctx = sh_case(rng, P)
+        fam, name, text, longs, ctx, *ctl = sh_case(rng, P)
         cont, tctx = CONTEXTS[ctx]
         pre = tctx + pre_rule(rng, P, [n for n, _ in longs])
-        a, b = place(rng, text, decls(longs), cont, pre)
-        return dict(kind='sh', sig='meta:shorthand:%s' % name, a=a, b=b, note='%s == %s' % (text, decls(longs)))
+        where = rng.choice(['rule', 'rule', 'attr', 'important'])
+        a, b = place(rng, text, decls(longs), cont, pre, where=where)
+        case = dict(kind='sh', sig='meta:shorthand:%s' % name, a=a, b=b, note='%s == %s' % (text, decls(longs)))
+        if ctl and ctl[0]:
+            ca, cb = place(rng, ctl[0][1], decls(longs), cont, pre, where=where)
+            case['control'] = dict(a=ca, b=cb, sig=ctl[0][0])
+        return case
     if kind == 'perm':
         while True:
-            fam, name, text, longs, ctx = sh_case(rng, P)
+            fam, name, text, longs, ctx, *_ = sh_case(rng, P)
             if fam in ('side', 'border', 'list-style', 'text-decoration', 'flex-flow', 'columns') and ' ' in text:
                 break
         cont, tctx = CONTEXTS[ctx]
@@ -1097,14 +1113,18 @@ def gen_pair(rng, P, gr, bad_pool):
         names = [n for n in gr.reg['properties'] if P.get(n) != ['0']]
         prop = rng.choice(names + ['margin', 'padding', 'border-top', 'border-radius', 'flex', 'columns', 'font',
                                    'text-decoration', 'list-style', 'background', 'outline', 'border-color'])
-        # a relative url() in a longhand loses the base URL at computed-value time (reported): no url() here
-        pool = [v for v in (gr.pools.get(prop) or []) if plain(v) and v.strip() and 'url(' not in v.lower()] or ['0']
+        pool = [v for v in (gr.pools.get(prop) or []) if plain(v) and v.strip()] or ['0']
         v = rng.choice(pool)
-        form = rng.choice(['whole', 'whole', 'fallback', 'nested', 'inherited', 'part', 'two-step', 'defined-with-fallback'])
+        form = rng.choice(['whole', 'whole', 'fallback', 'fallback', 'nested', 'inherited', 'part', 'two-step',
+                           'defined-with-fallback', 'dash-underscore'])
+        control = None
+        has_comma = ',' in re.sub(r'\([^()]*\)', '', re.sub(r'\([^()]*\)', '', v))     # a comma outside functions
         ctx = 'border-style:solid;position:relative;'
         cont = ''
-        if form == 'fallback' and ',' in v:
+        if form in ('two-step', 'defined-with-fallback') and has_comma:
             form = 'whole'
+        if 'url(' in v.lower() and form in ('dash-underscore', 'fallback', 'two-step', 'defined-with-fallback'):
+            form = 'whole'          # one mechanism per case: url() values go through the plain forms
         if form == 'whole':
             da = '--x:%s;%s:var(--x)' % (v, prop)
         elif form == 'fallback':
@@ -1115,7 +1135,13 @@ def gen_pair(rng, P, gr, bad_pool):
             da = '%s:var(--x)' % prop
             cont = '--x:%s;' % v
         elif form == 'two-step':
-            da = '--y:var(--z, %s);%s:var(--y)' % (v, prop) if ',' not in v else '--x:%s;%s:var(--x)' % (v, prop)
+            da = '--y:var(--z, %s);%s:var(--y)' % (v, prop)
+        elif form == 'dash-underscore':
+            # F131: --a-b and --a_b are stored under one name - control: var(--a-b) reads the other one
+            other = rng.choice([x for x in pool if 'url(' not in x.lower()] or [v])
+            da = '--a-b:%s;--a_b:%s;%s:var(--a-b)' % (v, other, prop)
+            if other != v:
+                control = ('var:dash-underscore', da, '%s:%s' % (prop, other))
         elif form == 'defined-with-fallback':
             # the fallback is only for an undefined property
             other = rng.choice(pool)
@@ -1125,8 +1151,24 @@ def gen_pair(rng, P, gr, bad_pool):
             i = rng.randrange(len(parts))
             da = '--x:%s;%s:%s' % (parts[i], prop, ' '.join(parts[:i] + ['var(--x)'] + parts[i + 1:]))
         db = '%s:%s' % (prop, v)
-        a, b = place(rng, da, db, cont, ctx, where=rng.choice(['rule', 'rule', 'attr']))
-        return dict(kind='var', sig='meta:var:%s' % form, a=a, b=b, note='%s == %s' % (da, db))
+        where = rng.choice(['rule', 'rule', 'attr'])
+        a, b = place(rng, da, db, cont, ctx, where=where)
+        case = dict(kind='var', sig='meta:var:%s' % form, a=a, b=b, note='%s == %s' % (da, db))
+        if form == 'fallback' and has_comma:
+            # F130: the commas of a fallback are dropped - control: against the value without its commas
+            nocomma = re.sub(r'\s*,\s*(?![^()]*\))', ' ', v)
+            control = ('var:fallback-commas', da, '%s:%s' % (prop, nocomma))
+        elif 'url(' in v.lower() and prop in gr.reg['properties'] and control is None:
+            # F129: a relative url() in a longhand's var() loses the base URL - control: the same with absolute urls
+            absu = lambda t: re.sub(r'url\(\s*(["\']?)(?![a-zA-Z][-+.a-zA-Z0-9]*:)', r'url(\1file:///nonexistent/', t)
+            control = ('var:url-longhand-base', absu(da), absu(db))
+        if control:
+            ccont = cont
+            if control[0] == 'var:url-longhand-base':
+                ccont = absu(cont)
+            ca, cb = place(rng, control[1], control[2], ccont, ctx, where=where)
+            case['control'] = dict(a=ca, b=cb, sig=control[0])
+        return case
     if kind == 'bad-decl':
         good = []
         for _ in range(rng.choice([1, 2, 3, 4])):
@@ -1223,6 +1265,9 @@ def cases_render(rng, gr, n):
     P = Pools(gr)
     bad_pool = make_bad_pool(rng, gr)
     fixed = [c for c in corpus('render')]
+    for da, db, sig, why in RENDER_PROBES:
+        fixed.append(dict(fn='render_pair', kind='probe', sig=sig or 'render-probe:%s' % da, a=doc('', '', '#t{%s}' % da),
+                          b=doc('', '', '#t{%s}' % db), note='%s == %s (%s)' % (da, db, why)))
     cases = []
     tries = 0
     while len(cases) < n and tries < 20 * n:
@@ -1259,10 +1304,11 @@ def stream_render(run, cases, outs):
         nboxes += o['boxes']
         if not o['same']:
             k[1] += 1
-            if c['sig'] not in seen:
-                seen.add(c['sig'])
+            sig = o.get('mechanism') or c['sig']
+            if sig not in seen:
+                seen.add(sig)
                 fail(run, 'metamorphic pair differs (%s): %s: %s' % (c['kind'], c['note'][:300], o['diff']),
-                     {'stream': 'render', 'case': c, 'diff': o['diff']}, signature=c['sig'])
+                     {'stream': 'render', 'case': c, 'diff': o['diff'], 'mechanism': o.get('mechanism')}, signature=sig)
     run.count('render-metamorphic', len(cases), [(c['kind'], c['note']) for c in cases],
               samples=[{'kind': cases[-1]['kind'], 'note': cases[-1]['note'][:300]}] if cases else [])
     run.stream_info('render-metamorphic', pairs_and_differences_by_kind=by_kind, boxes=nboxes, skipped_not_bad=skipped,
@@ -1276,6 +1322,82 @@ def stream_render(run, cases, outs):
                          'substituted text; bad-decl: a declaration that yields nothing inserted anywhere in a rule, a style '
                          'attribute, @page or a parent rule vs absent; bad-rule: one of 70 malformed rules/at-rules (or a stray '
                          'declaration) between two good rules vs absent; compute: any accepted value of any property, the name in another case between two void declarations (all computed values are read). Placement: author rule, style attribute, !important')
+
+
+# ================================================================================ 6. spec probes
+
+# (declaration, is it valid CSS for a property WeasyPrint supports?, signature of the open finding it is the witness
+#  of, or None).  The signatures apply to these exact declarations only: any other deviation is a violation.
+SPEC_PROBES = [
+    # valid
+    ('margin: 1px 2px', True, None), ('margin: auto', True, None), ('width: 1in', True, None), ('width: 0', True, None),
+    ('width: 1IN', True, 'valid-dropped'), ('width: 5PX', True, 'valid-dropped'), ('margin: 1Em 2PT', True, 'valid-dropped'),
+    ('outline: invert solid 2px', True, 'valid-dropped'), ('outline: red solid 2px', True, None),
+    ('flex: 1 0', True, None), ('flex: 2 3 10px', True, None), ('flex: 10px 2 3', True, None), ('flex: none', True, None),
+    ('flex-grow: 0', True, None), ('flex-grow: 1.5', True, None), ('color: RED', True, None), ('COLOR: red', True, None),
+    ('border-radius: 1px / 2px', True, None), ('border-radius: 1px 2px 3px 4px / 5px', True, None),
+    ('columns: 2 10em', True, None), ('columns: auto', True, None), ('font: 12px serif', True, None),
+    ('font: italic bold 12px/1.5 a, b', True, None), ('font: normal 12px serif', True, None),
+    ('margin: inherit', True, None), ('margin: initial', True, None), ('z-index: -1', True, None),
+    ('line-height: 1.5', True, None), ('padding: 0', True, None), ('text-decoration: underline dotted red', True, None),
+    ('list-style: square inside', True, None), ('page-break-before: always', True, None),
+    ('word-wrap: break-word', True, None), ('border-top: thin', True, None), ('border: solid', True, None),
+    ('text-decoration-thickness: from-font', True, None), ('text-decoration-thickness: auto', True, None),
+    ('--x: anything [goes] (here)', True, None), ('--x:', False, None), ('width: var(--x)', True, None),
+    # invalid
+    ('margin: 1px 2px 3px 4px 5px', False, None), ('margin: inherit 1px', False, 'invalid-accepted'),
+    ('margin: 1px initial', False, 'invalid-accepted'), ('padding: -1px', False, None), ('width: -1px', False, None),
+    ('flex: 2 10px 3', False, 'invalid-accepted'), ('flex-grow: -1', False, 'invalid-accepted'),
+    ('flex-shrink: -1', False, 'invalid-accepted'), ('flex: 1 2 3 4', False, None), ('border-radius: 1px /', False, None),
+    ('border-radius: / 1px', False, None), ('border-radius: 1px / 2px / 3px', False, None),
+    ('border-radius: 1px 2px 3px 4px 5px', False, None), ('border-top: red red', False, None),
+    ('border-top: 1px 2px', False, None), ('columns: 1px 2px', False, None), ('columns: 2 3', False, None),
+    ('color: 12px', False, None), ('width: red', False, None), ('font: 12px', False, None), ('font: serif', False, None),
+    ('font: normal', False, None), ('line-height: -1', False, None), ('column-count: 0', False, None),
+    ('column-count: 1.5', False, None), ('z-index: 1.5', False, None), ('margin: 1px,2px', False, None),
+    ('width: 10 px', False, None), ('width: 1px 2px', False, None), ('font-size: -1px', False, None),
+    ('border-width: -1px', False, None), ('outline-width: -1px', False, None), ('flex-basis: -1px', False, None),
+    ('border-style: solid solid solid solid solid', False, None), ('margin:', False, None), ('width: auto auto', False, None),
+    ('foo: bar', False, None), ('volume: 3', False, None), ('-webkit-foo: bar', False, None),
+]
+
+# pairs that must render alike; the signature applies to these exact pairs only
+RENDER_PROBES = [
+    ('--a:initial;width:var(--a, 7px)', 'width:7px', 'valid-dropped',
+     'a custom property set to `initial` is the guaranteed-invalid value: var() takes the fallback'),
+    ('width:3px;width:var(--x,)', 'width:auto', 'valid-dropped',
+     'var(--x,) has an empty fallback: the declaration is valid, and invalid at computed-value time (= unset)'),
+    ('--x:5px;width:var(--x)', 'width:5px', None, 'plain substitution'),
+    ('--x:5px;width:var(--X, 9px)', 'width:9px', None, 'custom property names are case-sensitive'),
+]
+
+
+def cases_probes():
+    return [{'fn': 'probe_decl', 'css': css} for css, _, _ in SPEC_PROBES]
+
+
+def stream_probes(run, cases, outs):
+    bad = 0
+    for (css, valid, sig), (st, o) in zip(SPEC_PROBES, outs):
+        if st != 'ok':
+            fail(run, '`%s` raised %s' % (css, o.get('msg') if isinstance(o, dict) else o),
+                 {'stream': 'probes', 'css': css, 'outcome': o}, signature='crash:probe:%s' % css)
+            continue
+        accepted = o['yields'] > 0
+        if accepted != valid:
+            bad += 1
+            fail(run, '`%s` is %s CSS and is %s' % (css, 'valid' if valid else 'invalid',
+                                                     'accepted as %s' % o['names'] if accepted else 'dropped'),
+                 {'stream': 'probes', 'css': css, 'valid': valid, 'yields': o['names']},
+                 signature=sig or 'spec-probe:%s' % css)
+        elif sig:
+            # the witness of an open finding no longer shows it
+            run.stream_info('spec-probes', **{'no_longer_deviating:' + css: sig})
+    run.count('spec-probes', len(cases), [c['css'] for c in cases], samples=[cases[0]['css']])
+    run.stream_info('spec-probes', deviations=bad,
+                    rule='%d hand-written declarations whose validity follows from the CSS specifications (boundaries of '
+                         'the modelled shorthands, signs, units, counts); accepted iff valid. The witnesses of the open '
+                         'findings invalid-accepted / valid-dropped are matched by their exact text' % len(SPEC_PROBES))
 
 
 # ================================================================================ check
@@ -1308,7 +1430,8 @@ def check(run):
                ('dispatch', cases_dispatch(rng, gr, 20000 if thorough else 4000)),
                ('units', cases_units(rng, 2000 if thorough else 300)),
                ('var', cases_var(run, rng, 8000 if thorough else 1500)),
-               ('render', cases_render(rng, gr, 3000 if thorough else 500))]
+               ('render', cases_render(rng, gr, 3000 if thorough else 500)),
+               ('probes', cases_probes())]
     allc = [c for _, cs in streams for c in cs]
     outs = run_multi(allc, limit=240)
     res, k = {}, 0
@@ -1320,6 +1443,7 @@ def check(run):
     stream_units(run, reg, *res['units'])
     stream_var(run, *res['var'])
     stream_render(run, *res['render'])
+    stream_probes(run, *res['probes'])
 
 
 def replay(data):
